@@ -10,6 +10,12 @@ import FianoModel.Uefi.ValidImage
 namespace Fiano.Uefi
 open Fiano
 
+/-! The three alignment facts live in a namespace of their own: `Uefi/Lemmas/Align.lean` (the C01 lemma
+    library) states same-named facts in a different form, and a module that needs both libraries could
+    not import them otherwise (Lean rejects same-named declarations with different types).  The files of
+    the C02 / C03 library `open EditArith`. -/
+namespace EditArith
+
 theorem alignGo_pow2 (v k : Nat) (hk : k < 64) (hv : v + 2 ^ k ≤ 2 ^ 64) :
     alignGo v (2 ^ k) = (v + 2 ^ k - 1) / 2 ^ k * 2 ^ k := by
   have hpos : 0 < 2 ^ k := Nat.two_pow_pos k
@@ -28,6 +34,8 @@ theorem align8_eq (v : Nat) (hv : v + 8 ≤ 2 ^ 64) : align8 v = (v + 7) / 8 * 8
 theorem align4_eq (v : Nat) (hv : v + 4 ≤ 2 ^ 64) : align4 v = (v + 3) / 4 * 4 := by
   have := alignGo_pow2 v 2 (by omega) (by simpa using hv)
   simpa [align4] using this
+
+end EditArith
 
 /-! ### checksums -/
 
@@ -60,15 +68,19 @@ theorem byteSum_eq_sum8 (b : Bytes) : Valid.byteSum b = (sum8 b).toNat := by
 theorem byteSum_lt (b : Bytes) : Valid.byteSum b < 256 := by
   unfold Valid.byteSum; omega
 
+namespace EditArith
 theorem sum8_append (a b : Bytes) : sum8 (a ++ b) = sum8 a + sum8 b := by
   apply UInt8.toNat_inj.mp
   unfold sum8
   rw [List.foldl_append, foldl_add_toNat, UInt8.toNat_add, foldl_add_toNat a, foldl_add_toNat b]
   simp
+end EditArith
 
+namespace EditArith
 theorem sum8_cons (x : UInt8) (b : Bytes) : sum8 (x :: b) = x + sum8 b := by
   have := sum8_append [x] b
   simpa [sum8] using this
+end EditArith
 
 theorem sum8_replicate_ff_or_zero : True := trivial
 
